@@ -3,6 +3,9 @@ package olareg
 // C09: a crash at any file-system step loses nothing acknowledged and tears nothing.
 
 import (
+	"context"
+	"encoding/json"
+	"errors"
 	"strconv"
 	"strings"
 	"time"
@@ -28,6 +31,53 @@ func vhBlobFilesIntact() bool {
 		}
 		alg := digest.Algorithm(rest[0])
 		if !alg.Available() || alg.FromBytes(vos.Bytes(p)).Encoded() != rest[1] {
+			return false
+		}
+	}
+	return true
+}
+
+// vhLayoutFilesIntact: no half-written layout file survives the crash: every index.json
+// parses as an index of schema version 2 and every oci-layout as a layout document
+// (transient temp files of an interrupted save, index.json.<n>, are not layout files).
+func vhLayoutFilesIntact() bool {
+	for _, p := range vos.List(vhRoot) {
+		switch {
+		case strings.HasSuffix(p, "/index.json"):
+			var ix types.Index
+			if json.Unmarshal(vos.Bytes(p), &ix) != nil || ix.SchemaVersion != 2 {
+				return false
+			}
+		case strings.HasSuffix(p, "/oci-layout") && vos.Exists(strings.TrimSuffix(p, "oci-layout")+"index.json"):
+			// (a torn oci-layout next to NO index is the interrupted creation of a
+			// repository that holds nothing; repoInit rewrites an invalid layout file at
+			// the next write and the repository reads as absent until then: not a
+			// half-written blob or index in the sense of the property)
+			var l struct {
+				Version string `json:"imageLayoutVersion"`
+			}
+			if json.Unmarshal(vos.Bytes(p), &l) != nil || l.Version == "" {
+				return false
+			}
+		}
+	}
+	return true
+}
+
+// vhReposLoad: every repository opens and its index loads without error, asked of the
+// store itself (the tag listing answers 404 for any load error).
+func vhReposLoad(s *Server, repos []string) bool {
+	for _, name := range repos {
+		repo, err := s.store.RepoGet(context.Background(), name)
+		if err != nil {
+			if errors.Is(err, types.ErrNotFound) {
+				continue
+			}
+			return false
+		}
+		_, err = repo.IndexGet()
+		repo.Done()
+		if err != nil {
 			return false
 		}
 	}
@@ -144,6 +194,8 @@ func VH_C09_Crash() {
 	}
 	vh.Assert(vhDo(s2, "GET", "/v2/a/tags/list", nil, nil, nil).Status() == 200, "C09.repository-does-not-load")
 	vh.Assert(vhBlobFilesIntact(), "C09.blob-file-does-not-hash-to-name")
+	vh.Assert(vhLayoutFilesIntact(), "C09.half-written-layout-file")
+	vh.Assert(vhReposLoad(s2, []string{"a", "n"}), "C09.repository-does-not-load")
 	// every tag resolves to an intact manifest
 	for _, t := range tags {
 		m := vhGetManifest(s2, "a", t)
